@@ -156,6 +156,9 @@ func drawFlags(t *rapid.T, g *gspec.Grammar) genFlags {
 func drawC13(t *rapid.T) *c13Case {
 	text, kind, g := drawGrammarText(t)
 	c := &c13Case{Text: text, Kind: kind, Flags: drawFlags(t, g)}
+	if maxParenDepth(text) > 10 {
+		c.Flags.Cache = true // documented: deep nesting needs -cache (see maxParenDepth)
+	}
 	if gspec.U(t, 10, "x") == 0 {
 		c.Extra = append(c.Extra, "-x")
 	}
@@ -422,6 +425,9 @@ func FuzzToolTotal(f *testing.F) {
 		c.Flags.Cache = bits&32 != 0
 		if bits&64 != 0 {
 			c.Extra = []string{"-x"}
+		}
+		if maxParenDepth(text) > 10 {
+			c.Flags.Cache = true // the documented remedy for deep nesting; with it the tool must be fast
 		}
 		kind, diff, _, _, timedOut, _, _ := checkC13(dir, c)
 		if timedOut {
